@@ -59,3 +59,17 @@ pub fn c17_translation_invariant() {
     kani::cover!(a.checked_add(n).is_none() && b.checked_add(n).is_some());
     assert!(x == y);
 }
+
+/// signature timestamps compare exactly like serial numbers (RFC 4034 section 3.1.5)
+#[kani::proof]
+pub fn c17_timestamp_cmp_is_serial_cmp() {
+    use domain::rdata::dnssec::Timestamp;
+    let a: u32 = kani::any();
+    let b: u32 = kani::any();
+    let r = Timestamp::from(a).partial_cmp(&Timestamp::from(b));
+    kani::cover!(r.is_none());
+    assert!(r == Serial(a).partial_cmp(&Serial(b)));
+    assert!((r == Some(Ordering::Less)) == spec_lt(a, b));
+    assert!(r.is_none() == (a.wrapping_sub(b) == 0x8000_0000));
+    assert!(Timestamp::from(a).into_int() == a);
+}
